@@ -846,6 +846,8 @@ pub fn family_world_reactors() -> Vec<Program> {
         ("re_add", vec![Act::EwAdd(0, 0, 30)]),
         ("trigger3", vec![Act::EntityEv(0, 0), Act::EntityEv(1, 0)]),
         ("remove_all", vec![Act::EwRemove(0, 1, 0)]),
+        ("add_two", vec![Act::EwAdd(0, 2, 40), Act::EwAdd(0, 3, 50), Act::EntityEv(3, 0)]),
+        ("remove_two_entities_in_one_call", vec![Act::EwRemove(0, 2, 3), Act::Mark]),
         ("despawn", vec![Act::DespawnEnt(0)]),
         ("ew1", vec![Act::EwAdd(1, 2, 5), Act::Insert(2, 1, 3), Act::Remove(2, 1), Act::EwRemove(1, 2, 1), Act::Insert(2, 1, 4), Act::Remove(2, 1)]),
         ("wr", vec![Act::WrAdd(0, vec![Trig::Bc(0), Trig::Mut(0)]), Act::WrAdd(1, vec![Trig::Bc(0)]), Act::Broadcast(0), Act::WrRemove(0, WrSel::Added { which: 0, part: 1 }), Act::Broadcast(0), Act::Access(2, 0, How::GetMut, 9), Act::WrRun(0)]),
